@@ -65,6 +65,7 @@ func init() {
 			"evaluating (a) library round trip ending in io.EOF, (b) reference decoder on the library's stream, (c) library reader on a reference encoder's stream; " +
 			"the first 201 case indices sweep every boundary size (1,2,15,16,17, 31 KiB, 32 KiB, 64 KiB +-1, 96/128/300 KiB) for every codec and every codec variant once, whatever the seed; " +
 			"conc list: one codec value used by 32 goroutines at once, oracle (a) per goroutine (32 evaluations per case). " +
+			"pair list: after a history (failed sinks and damaged streams closed once or twice), two writers and then two readers of one codec value are open at the same time on one goroutine and used alternately; each stream must decode (reference decoder, then library readers) to its own payload. " +
 			"signature = (codec+options, payload kind, size bucket, W class, R class, set of history kinds); non-trivial = payload of at least 2 bytes. " +
 			"counters pool_get/pool_reuse report how often the inner pooled object of a reader/writer had already been seen in this process (pointer identity, evidence only)",
 		Assumptions: []string{
@@ -1465,6 +1466,9 @@ func (e *c16Env) runStep(s c16Step) {
 			e.note(v.family, "reader", rc)
 			drain(rc, 4<<20)
 			rc.Close()
+			if r.Bool() {
+				rc.Close()
+			}
 		case "fail-sink":
 			sink := &c16FailSink{left: r.Intn(len(q)/2+40) * s.A / 1000}
 			w := v.codec.NewWriter(sink)
@@ -1472,6 +1476,10 @@ func (e *c16Env) runStep(s c16Step) {
 			wp := c16PickW(r, len(q))
 			c16WriteAll(w, q, &wp)
 			w.Close()
+			if r.Bool() {
+				// the deferred-plus-explicit Close idiom (the library's own record_v1.go uses it)
+				w.Close()
+			}
 		case "abandon-write":
 			w := v.codec.NewWriter(io.Discard)
 			e.note(v.family, "writer", w)
@@ -1725,6 +1733,126 @@ func runC16(c *core.Ctx) {
 		c.Count("S:"+sC.Class, 1)
 	})
 
+	// two writers, then two readers, of one codec value open at the same time on one goroutine,
+	// used alternately, after a history: pooled objects must not be shared between them (an object
+	// that an earlier use returned to the pool twice is handed to both)
+	c.Cases("pair", c.N(3000, 150000), func(k *core.Case) {
+		r := k.R
+		name := c16Names[r.Intn(len(c16Names))]
+		vi := c16ByName[name][r.Intn(len(c16ByName[name]))]
+		v := c16Variants[vi]
+		if env.tripped(k, v) {
+			return
+		}
+		leave, ok := env.enter(k, v)
+		if !ok {
+			return
+		}
+		defer leave()
+		hist := c16PickHistory(r, vi, 4)
+		if len(hist) == 0 || r.Bool() {
+			hist = append(hist, c16Step{Kind: core.Pick(r, "fail-sink", "fail-sink", "truncated", "corrupt"), V: vi, A: r.Intn(1001), Seed: r.Uint64(),
+				P: c16Payload{Kind: c16PayloadKinds[r.Intn(len(c16PayloadKinds))], Size: r.Range(1, 100*c16K), Seed: r.Uint64()}})
+		}
+		var pl [2]c16Payload
+		var P [2][]byte
+		for i := range pl {
+			pl[i] = c16Payload{Kind: c16PayloadKinds[r.Intn(len(c16PayloadKinds))], Size: core.Pick(r, r.Range(1, 300), r.Range(300, 9000), r.Range(9000, 80*c16K)), Seed: r.Uint64()}
+			P[i] = c16Gen(pl[i])
+		}
+		chunk := core.Pick(r, 1, 7, 100, 4096, 70000)
+		k.Describe(map[string]any{"list": "pair", "codec": v.name, "options": v.opts, "payloads": []string{pl[0].String(), pl[1].String()}, "chunk": chunk, "history": c16StepStrings(hist)})
+		env.runHistory(hist)
+		c.Eval(1)
+		var z [2][]byte
+		wf := c16Guard(func() *c16Fail {
+			var bufs [2]bytes.Buffer
+			var ws [2]io.WriteCloser
+			for i := range ws {
+				ws[i] = v.codec.NewWriter(&bufs[i])
+				env.note(v.family, "writer", ws[i])
+			}
+			off := [2]int{}
+			for off[0] < len(P[0]) || off[1] < len(P[1]) {
+				for i := range ws {
+					if off[i] >= len(P[i]) {
+						continue
+					}
+					end := off[i] + chunk
+					if end > len(P[i]) {
+						end = len(P[i])
+					}
+					if _, err := ws[i].Write(P[i][off[i]:end]); err != nil {
+						return c16Failf(nil, "writer %d of two open at once: Write failed: %v", i, err)
+					}
+					off[i] = end
+				}
+			}
+			for i := range ws {
+				if err := ws[i].Close(); err != nil {
+					return c16Failf(nil, "writer %d of two open at once: Close failed: %v", i, err)
+				}
+				z[i] = bufs[i].Bytes()
+			}
+			return nil
+		})
+		if wf == nil {
+			for i := range z {
+				if f := env.refDecode(v.family, v.framed, z[i], P[i], true); f != nil {
+					wf = c16Failf(f.Detail, "stream of writer %d of two writers that were open at the same time: %s", i, f.What)
+					break
+				}
+			}
+		}
+		if wf != nil {
+			k.Viol("c16:pair:"+v.name+":writers", wf.What, map[string]any{"codec": v.String(), "history": c16StepStrings(hist), "detail": wf.Detail})
+			return
+		}
+		c.Eval(1)
+		rf := c16Guard(func() *c16Fail {
+			var rs [2]io.ReadCloser
+			for i := range rs {
+				rs[i] = v.codec.NewReader(bytes.NewReader(z[i]))
+				env.note(v.family, "reader", rs[i])
+			}
+			var got [2][]byte
+			done := [2]bool{}
+			buf := make([]byte, chunk)
+			for spins := 0; (!done[0] || !done[1]) && spins < 4<<20; spins++ {
+				for i := range rs {
+					if done[i] {
+						continue
+					}
+					n, err := rs[i].Read(buf)
+					if n < 0 || n > len(buf) {
+						return c16Failf(nil, "reader %d: Read returned n=%d for a %d byte buffer", i, n, len(buf))
+					}
+					got[i] = append(got[i], buf[:n]...)
+					if err == io.EOF {
+						done[i] = true
+					} else if err != nil {
+						return c16Failf(nil, "reader %d of two open at once failed after %d of %d bytes: %v", i, len(got[i]), len(P[i]), err)
+					}
+					if len(got[i]) > len(P[i]) {
+						return c16Failf(nil, "reader %d of two open at once produced more than the %d bytes that were compressed", i, len(P[i]))
+					}
+				}
+			}
+			for i := range rs {
+				rs[i].Close()
+				if !bytes.Equal(got[i], P[i]) {
+					return c16Failf(nil, "reader %d of two readers open at the same time returned %d bytes, want %d (first difference at %d)", i, len(got[i]), len(P[i]), c16FirstDiff(got[i], P[i]))
+				}
+			}
+			return nil
+		})
+		if rf != nil {
+			k.Viol("c16:pair:"+v.name+":readers", rf.What, map[string]any{"codec": v.String(), "history": c16StepStrings(hist)})
+			return
+		}
+		c.Distinct(fmt.Sprintf("pair %s chunk=%d H=%s", v, chunk, c16Kinds(hist)))
+	})
+
 	// one codec value, 32 goroutines at once
 	c.Cases("conc", c.N(400, 40000), func(k *core.Case) {
 		r := k.R
@@ -1760,9 +1888,15 @@ func runC16(c *core.Ctx) {
 			P  []byte
 		}
 		big := r.Chance(1, 8)
+		// tight: small payloads and many rounds, so that one goroutine's Close and another's
+		// NewReader/NewWriter overlap thousands of times (hand-over of pooled objects)
+		tight := !big && r.Chance(1, 4)
 		jobs := make([]job, G)
 		for i := range jobs {
 			size := c16PickSize(r)
+			if tight {
+				size = r.Range(64, 3000)
+			}
 			if !big && size > 40*c16K {
 				size = r.Range(1, 40*c16K)
 			}
@@ -1776,7 +1910,14 @@ func runC16(c *core.Ctx) {
 			jobs[i] = j
 		}
 		rounds := r.Range(1, 3)
-		k.Describe(map[string]any{"codec": v.name, "options": v.opts, "goroutines": G, "rounds": rounds, "big": big,
+		if tight {
+			rounds = r.Range(100, 300)
+			if v.family == "zstd" {
+				// a zstd writer costs milliseconds to set up at the higher levels
+				rounds = r.Range(8, 24)
+			}
+		}
+		k.Describe(map[string]any{"codec": v.name, "options": v.opts, "goroutines": G, "rounds": rounds, "big": big, "tight": tight,
 			"payloads": func() []string {
 				out := make([]string, G)
 				for i, j := range jobs {
@@ -1784,6 +1925,11 @@ func runC16(c *core.Ctx) {
 				}
 				return out
 			}()})
+		if tight {
+			// a pooled object changes hands between goroutines on different Ps only through the
+			// pool's shared lists: the more Ps the more often (the shard normally runs on 2)
+			defer runtime.GOMAXPROCS(runtime.GOMAXPROCS(16))
+		}
 		fails := make([]*c16Fail, G)
 		start := make(chan struct{})
 		var wg sync.WaitGroup
@@ -1811,6 +1957,7 @@ func runC16(c *core.Ctx) {
 		wg.Wait()
 		c.Eval(G)
 		c.Count("conc:"+v.name, 1)
+		c.Count("conc_round_trips", int64(G*rounds))
 		for g, f := range fails {
 			j := jobs[g]
 			if j.pl.Size >= 2 {
@@ -1835,4 +1982,17 @@ func runC16(c *core.Ctx) {
 				"W": j.w.String(), "R": j.rp.String(), "S": j.s.String(), "failure": f.Detail, "same_operation_alone_afterwards": seq})
 		}
 	})
+}
+
+func c16FirstDiff(a, b []byte) int {
+	n := len(a)
+	if len(b) < n {
+		n = len(b)
+	}
+	for i := 0; i < n; i++ {
+		if a[i] != b[i] {
+			return i
+		}
+	}
+	return n
 }
